@@ -376,6 +376,7 @@ def run_where(case):
             if obs["conf_files"] != ["proj/.gwfconf.json"]:
                 res.violation("state-dir-location", "invoked from %s: config files at %s; expected only proj/.gwfconf.json" % (dkind, obs["conf_files"]), case=case)
             observations[dkind] = obs
+    res.obs("observations", {k: {"status": v["status"], "created": v["created"], "gwf_dirs": v["gwf_dirs"]} for k, v in observations.items()})
     keys = list(observations)
     ref = observations[keys[0]]
     for k in keys[1:]:
